@@ -18,6 +18,7 @@ Mirrors, branch by branch:
   * the cookie loop at the start of `serverHandshake` as a step function over received hellos.
 -/
 import Gotlcp.Base.Hex
+import Gotlcp.Model.Fragment
 
 namespace Gotlcp.Model.Cookie
 
@@ -227,6 +228,24 @@ def answersPerDatagram (dropsLeftover : Bool) (hellos : Nat) : Nat :=
 into one record or one record each -/
 def packedLen (rh hh body n : Nat) (oneRecord : Bool) : Nat :=
   if oneRecord then rh + n * (hh + body) else n * (rh + hh + body)
+
+/-! ### a ClientHello received in fragments during the cookie phase
+
+`readClientHello` / `readNextClientHello` take their message from `readHandshake`
+(`Gotlcp.Model.Fragment.apply`: per-`message_seq` reassembly buffers, the buffer of a rebuilt
+message is dropped before the message is delivered). `message_seq` is not checked on receipt, so
+which datagrams make a ClientHello reach the cookie loop is decided by those buffers alone. -/
+
+/-- a series of datagrams that each carry one slice [off, off+len) of ONE message of `total` bytes
+under one `message_seq`: for each datagram, does `readHandshake` deliver the message (`true`) or
+keep reading (`false`)? The list ends at a fatal condition. Payload bytes play no part in that. -/
+def rxFragments (strict : Bool) (total : Nat) : Fragment.Pending → List (Nat × Nat) → List Bool
+  | _, [] => []
+  | st, (off, len) :: rest =>
+    match Fragment.apply strict st ⟨1, total, 0, off, len, List.replicate len 0⟩ with
+    | (st', .cont) => false :: rxFragments strict total st' rest
+    | (st', .deliver _) => true :: rxFragments strict total st' rest
+    | (_, .fatal _) => []
 
 /-- run the loop over the hellos received so far; `true` = it has exited -/
 def runLoop (macLen : Nat) : List (Bool × Bool) → List Action × Bool
